@@ -17,6 +17,8 @@ def run(prop, tier):
     nseeds = 16 if tier == "quick" else 32
     base = common.seed() * 1000
     units += [dict(fn="unit_layout", seed=base + s, programs=nprog, kind="layout (bounded)", replayer="contracts.asmlayout:replay_layout") for s in range(nseeds)]
+    # programs with a real bss section (labels and defs reservations only; nothing of it may reach the image, whatever precedes it)
+    units += [dict(fn="unit_layout", seed=base + 500 + s, programs=nprog, bss=True, kind="layout with bss (bounded)", replayer="contracts.asmlayout:replay_layout") for s in range(nseeds // 2)]
     reps = common.run_units("contracts.asmlayout:unit_any", units, budget=900)
     lem = [r for r in reps if r["unit"]["fn"] != "unit_layout"]
     lay = [r for r in reps if r["unit"]["fn"] == "unit_layout"]
@@ -29,7 +31,7 @@ def run(prop, tier):
     v.extra["evaluations"] = progs + len(forms)
     v.extra["distinct_nontrivial"] = sum((r.get("kinds") or {}).get("accepted", 0) for r in lay)
     v.bounded = [dict(part="Assembler.assemble layout / determinism / statelessness", bound=f"{nseeds} seeds x {nprog} generated programs of 3..12 statements (labels forward/backward, SECTION code/data, one .ORG, defb/defw/defl/defs/defm incl. backslashes, {len(AL.INSTR_POOL)} instruction templates)",
-                      note="bounded; bss placement after data and the 'text' alias are not generated; reference = independent layout calculator that assembles every statement alone with symbols substituted")]
+                      note="bounded; half of the bss programs have the canonical code/data/bss shape; the 'text' alias is not generated; reference = independent layout calculator that assembles every statement alone with symbols substituted")]
     v.assumptions = [
         "strings and the lark parser are outside the symbolic engine: source text is concrete, symbol VALUES are symbolic (bound after parsing) for the lemmas",
         "internal-memory offsets are parsed to integers by the transformer and cannot take symbols; they are covered through concrete text only",
